@@ -791,6 +791,7 @@ def check_inssort_twins(ck, tu):
 
         def flat(stmt, drop_bounds):
             out = []
+            names = dtable.local_canon(stmt)       # alpha-renaming: a rename in one of the two copies is not a difference
 
             def rec(s):
                 if s is None:
@@ -802,7 +803,12 @@ def check_inssort_twins(ck, tu):
                 elif k == "IfStmt":
                     c, t, e = kids(s)
                     d = dtable.describe(c)
-                    if drop_bounds and d in ("((i + 1) < n)",):
+                    bb = match.binop(c, ("<",))
+                    pl = match.binop(bb[1], ("+",)) if bb else None
+                    only_lcp = e is None and all(("callee" in strip_casts(q) and strip_casts(q)["callee"]["name"] == "set_lcp")
+                                                 for q in (kids(t) if t is not None and t["k"] == "CompoundStmt" else [t]) if q is not None)
+                    if drop_bounds and pl and const_int(pl[2]) == 1 and only_lcp:
+                        # `if (x + 1 < n) set_lcp(x + 1, ...)`: the bounds guard that distinguishes the last iteration
                         rec(t)
                         return
                     out.append("if " + d)
@@ -816,15 +822,20 @@ def check_inssort_twins(ck, tu):
                     out.append("done")
                 elif k == "DeclStmt":
                     for v in kids(s):
-                        out.append("decl %s = %s" % (v.get("name"), dtable.describe(kids(v)[0]) if kids(v) else ""))
+                        out.append("decl %s = %s" % (names.get(v.get("did"), v.get("name")), dtable.describe(kids(v)[0]) if kids(v) else ""))
                 else:
                     out.append(dtable.describe(s))
-            rec(stmt)
-            return out
-        a = flat(gen, False)
-        b = flat(blocks[0], True)
-        # the last iteration fixes j = n - 1
-        b = [x for x in b if x != "decl j = (n - 1)"]
+            with dtable.canonical_names(names):
+                rec(stmt)
+            return out, names
+        (a, na), (b, nb) = flat(gen, False), flat(blocks[0], True)
+        # the last iteration declares its own j = n - 1 (the general one takes j from the loop): drop that declaration and
+        # give the remaining locals of both copies the same canonical numbering
+        jdecl = [x for x in b if x.startswith("decl v1 = (") and x.endswith("- 1)")]
+        if jdecl and len(nb) == len(na) + 1:
+            b = [x for x in b if x is not jdecl[0]]
+            import re as _re
+            b = [_re.sub(r"\bv(\d+)\b", lambda m: "v%d" % (int(m.group(1)) - 1) if int(m.group(1)) > 1 else "j", x) for x in b]
         if a != b:
             i = 0
             while i < min(len(a), len(b)) and a[i] == b[i]:
